@@ -61,7 +61,31 @@ type SliceV struct {
 	Elem                types.Type
 	Own                 *Owner
 	New                 bool // backing array allocated by the function under verification
+	// Region is the heap class of the backing array: the key of the field the
+	// slice was loaded from ("" = not yet owned by a field). Arrays referenced
+	// from different fields are assumed (and, at stores, checked) not to alias.
+	Region string
 }
+
+var regionTypes = map[string]types.Type{}
+
+// sliceRoot is the root type of the backing array of a slice in a region.
+func sliceRoot(elem types.Type, region string) types.Type {
+	if region == "" {
+		return types.NewSlice(elem)
+	}
+	k := region + "|" + elemKey(elem)
+	if t, ok := regionTypes[k]; ok {
+		return t
+	}
+	tn := types.NewTypeName(0, nil, "region:"+region, nil)
+	nt := types.NewNamed(tn, types.NewSlice(elem), nil)
+	regionTypes[k] = nt
+	return nt
+}
+
+func (s SliceV) root() types.Type { return sliceRoot(s.Elem, s.Region) }
+func (s SliceV) key() string      { return rootKey(s.root()) }
 
 type Iface struct {
 	Tag, Ref string
@@ -198,6 +222,9 @@ func rootKey(t types.Type) string {
 		if _, ok := u.Underlying().(*types.Struct); ok {
 			return typeKey(t)
 		}
+		if sl, ok := u.Underlying().(*types.Slice); ok && strings.HasPrefix(u.Obj().Name(), "region:") {
+			return "[]" + elemKey(sl.Elem()) + "@" + strings.TrimPrefix(u.Obj().Name(), "region:")
+		}
 		return "cell:" + typeKey(t.Underlying())
 	case *types.Alias:
 		return rootKey(types.Unalias(t))
@@ -256,6 +283,10 @@ func isArrayRoot(t types.Type) (types.Type, bool) {
 		switch uu := u.Underlying().(type) {
 		case *types.Array:
 			return uu.Elem(), true
+		case *types.Slice:
+			if strings.HasPrefix(u.Obj().Name(), "region:") {
+				return uu.Elem(), true
+			}
 		}
 	}
 	return nil, false
